@@ -71,18 +71,24 @@ struct MockParser final : Parser {
 
 template <typename T> struct Dummy { alignas(T) unsigned char mem[sizeof(T)]; T& ref() { return *reinterpret_cast<T*>(mem); } };
 
+static int g_parser_inq_shut = -1;
+ENTRY int verif_parser_input_queue_shut_down() { return g_parser_inq_shut; }
 ENTRY unsigned verif_parser_parse(int set_header_first, int throw_in_run, int buffers, unsigned char* out, unsigned cap) {
     g_rec = out; g_n = 0; g_cap = cap;
     // the collaborators are never used for real: their operations at the stage boundary are overridden by the recorders above
-    static Dummy<osmium::thread::Pool> pool; static Dummy<future_string_queue_type> inq; static Dummy<future_buffer_queue_type> outq;
+    static Dummy<osmium::thread::Pool> pool; static Dummy<future_buffer_queue_type> outq;
+    future_string_queue_type inq_real{4, "raw_input"};             // the real input queue: the parser's end must shut it down (its producer, the read thread, may be blocked on it)
+    struct { future_string_queue_type& q; future_string_queue_type& ref() { return q; } } inq{inq_real};
     static Dummy<std::promise<osmium::io::Header>> promise; static unsigned char state[256];
     std::memset(promise.mem, 0, sizeof(promise.mem));
     *reinterpret_cast<void**>(promise.mem) = state;          // a promise that "has a shared state" (non-null _M_future)
     parser_arguments args{pool.ref(), -1, inq.ref(), outq.ref(), promise.ref(), nullptr, osmium::osm_entity_bits::all, osmium::io::read_meta::yes, osmium::io::buffers_type::any, false};
     static Dummy<MockParser> storage;
-    MockParser* p = new (storage.mem) MockParser{args};      // never destroyed: the destructor would shut the (dummy) input queue down
+    MockParser* p = new (storage.mem) MockParser{args};
     p->set_header_first = set_header_first; p->throw_in_run = throw_in_run; p->buffers = buffers;
     p->parse();
+    p->~MockParser();                                               // what the parser thread does when parse() has returned
+    g_parser_inq_shut = inq_real.in_use() ? 0 : 1;
     return g_n;
 }
 
